@@ -284,3 +284,12 @@ Proof.
   rewrite (dotv_comm _ d), (dotv_comm b d), <- (dotv_vaddv_r d _ _ L).
   rewrite (dotv_veq_r d _ _ E). apply dotv_zeros_r.
 Qed.
+
+(* inverse-function rule for one equation *)
+Lemma inverse_rule (fx : Q) (fd dd : vec) (dx : Q) : ~ fx == 0 -> (fx * dx + dotv fd dd == 0 <-> dx == - (dotv fd dd) / fx).
+Proof.
+  intro H. set (s := dotv fd dd). split; intro E.
+  - assert (E2 : dx * fx == - s) by (setoid_replace (dx * fx) with ((fx * dx + s) - s) by ring; rewrite E; ring).
+    rewrite <- E2. field. exact H.
+  - rewrite E. field. exact H.
+Qed.
